@@ -429,6 +429,7 @@ register("C11", streams=[Q("nopar", apis=["find_matches"], src=None)],
 register("C12", streams=[Q("all", apis=ALL_APIS, src=True, untraced=0.4, share=3), Q("parent", apis=ALL_APIS, src=True, untraced=0.4, share=1),
                          Q("nopar", apis=ALL_APIS, src=True, untraced=0.4, share=1, up=1.0)],
          observables=["full_results"], oracles=[oracles.concat_oracle],
+         extra=[families.MutateFamily("handles", 500, 15000, "searches from a Match that was written through (m.data = v, then find_matches(q, m)): locations and the node reached")],
          rule="pairs (p, q): every API function run on q from the k-th match of p, compared with the specification evaluated from the same match; p+q concatenation checked on the python side")
 register("C13", streams=[Q("parent", apis=["find_matches"], src=None, share=2, untraced=0.3, climb_in_has=0.25),
                          Q("parent", apis=ALL_APIS, src=True, share=1, untraced=0.4, climb_in_has=0.2)],
